@@ -19,9 +19,9 @@ Ev == Trace[l]
 
 InOK(e) ==
   LET o == Observe(e.mode, e.q, e.tsig, 1, e.envs) IN
-  /\ o.delivered = e.obs.delivered
-  /\ o.err = e.obs.err
   /\ e.obs.chclosed /\ e.obs.connclosed /\ e.obs.extra = 0
+  /\ \/ o.ambig                               \* a validly truncated MAC was met: AMBIG, only closure is asserted
+     \/ o.delivered = e.obs.delivered /\ o.err = e.obs.err
 
 OutOK(e) ==
   /\ e.wire = e.chunks
